@@ -69,8 +69,9 @@ const (
 type submission struct {
 	Job      int  `json:"job"`
 	API      int  `json:"api"`
-	Generous bool `json:"generous"` // timeout 300ms instead of 100us
-	Gap      int  `json:"gap"`      // yields after the submission
+	Generous bool `json:"generous"`         // timeout 300ms instead of 100us
+	NoWait   int  `json:"noWait,omitempty"` // 1: timeout 0, 2: timeout -1ms (boundary values; overrides Generous)
+	Gap      int  `json:"gap"`              // yields after the submission
 }
 
 type phase struct {
@@ -119,6 +120,9 @@ func (s scenario) String() string {
 				fmt.Fprintf(&sb, "%d%c", x.Job, "STIJ"[x.API])
 				if x.Generous {
 					sb.WriteByte('+')
+				}
+				if x.NoWait > 0 {
+					sb.WriteByte('0')
 				}
 			}
 			sb.WriteString(">")
@@ -191,6 +195,7 @@ func genScenario(t *rapid.T) scenario {
 			sub := submission{Job: ji, API: rapid.SampledFrom([]int{apiSchedule, apiSchedule, apiScheduleTimeout, apiInvoke, apiInvokeTimeout}).Draw(t, "api")}
 			if sub.API == apiScheduleTimeout || sub.API == apiInvokeTimeout {
 				sub.Generous = rapid.Bool().Draw(t, "generous")
+				sub.NoWait = rapid.SampledFrom([]int{0, 0, 0, 1, 2}).Draw(t, "noWait")
 			}
 			if trickle {
 				sub.Gap = rapid.IntRange(0, 10).Draw(t, "gap")
@@ -440,6 +445,12 @@ func runScenario(s scenario) result {
 		timeout := 100 * time.Microsecond
 		if x.Generous {
 			timeout = 300 * time.Millisecond
+		}
+		switch x.NoWait {
+		case 1:
+			timeout = 0
+		case 2:
+			timeout = -time.Millisecond
 		}
 		switch x.API {
 		case apiSchedule:
